@@ -43,6 +43,7 @@ EXPLANATION = (
     "written by reset()/close() json-dumps every response; R1.13 a division or modulo by `len(X)` is dominated by a non-emptiness "
     "test of that same X, and C11's R11.4 (each permission rule computes its predicate for every input, including 'not found') "
     "applied here. "
+    "R1.14/R1.15 = C02's R2.2/R2.3 (an observation that leaves its declared space, or a state-keyed look-up without default, raises inside step) applied here. "
     "NOT decided: that no input whatsoever makes a library call raise (KeyError/IndexError/validation errors on "
     "run-time values) and finiteness of rewards as numbers."
 )
@@ -1070,3 +1071,11 @@ def check(ctx: Ctx) -> None:
     r1_11(ctx)
     r1_12(ctx)
     r1_13(ctx)
+    # "a step ... returns an observation": an observation that leaves its declared space (value above the top of a Discrete leaf,
+    # a state-keyed look-up without default) makes the flattening / the look-up raise inside step - C02's rules decide that
+    from ..obsmodel import ObsModel
+    from . import c02
+    om = ObsModel(ctx.ix)
+    with ctx.borrowed({"R2.2": "R1.14", "R2.3": "R1.15"}):
+        c02.r2_2(ctx, om)
+        c02.r2_3(ctx, om)
